@@ -503,22 +503,91 @@ def _is_fresh_read_in_loop(f: Func, name: str) -> bool:
 
 # ------------------------------------------------------------------------------- E1 / E2
 
+def _canon(e: ast.AST, env: Dict[str, tuple]) -> tuple:
+    """canonical tree of an arithmetic expression with forward-substituted locals: commutative operands sorted,
+    negation pulled outwards ((-a)/b == -(a/b) == a/(-b), exactly so in IEEE arithmetic), double negation removed"""
+    def neg(x):
+        return x[1] if x[0] == "neg" else ("neg", x)
+
+    if isinstance(e, ast.Name):
+        return env.get(e.id, ("name", e.id))
+    if isinstance(e, ast.Constant):
+        return ("const", repr(e.value))
+    if isinstance(e, ast.UnaryOp) and isinstance(e.op, ast.USub):
+        return neg(_canon(e.operand, env))
+    if isinstance(e, ast.BinOp):
+        l, r = _canon(e.left, env), _canon(e.right, env)
+        if isinstance(e.op, (ast.Mult, ast.Div)):
+            sign = 0
+            if l[0] == "neg":
+                l, sign = l[1], sign + 1
+            if r[0] == "neg":
+                r, sign = r[1], sign + 1
+            core = ("mul",) + tuple(sorted([l, r], key=repr)) if isinstance(e.op, ast.Mult) else ("div", l, r)
+            return neg(core) if sign % 2 else core
+        if isinstance(e.op, ast.Add):
+            return ("add",) + tuple(sorted([l, r], key=repr))
+        if isinstance(e.op, ast.Sub):
+            return ("add",) + tuple(sorted([l, neg(r)], key=repr))
+        return (type(e.op).__name__, l, r)
+    if isinstance(e, ast.Call):
+        return ("call", norm(e.func)) + tuple(_canon(a, env) for a in e.args) + tuple(
+            (k.arg, _canon(k.value, env)) for k in e.keywords)
+    if isinstance(e, ast.Attribute):
+        return ("attr", _canon(e.value, env), e.attr)
+    return ("expr", norm(e))
+
+
+def _show_canon(t: tuple) -> str:
+    k = t[0]
+    if k in ("name", "const", "expr"):
+        return t[1]
+    if k == "neg":
+        return "-" + _show_canon(t[1])
+    if k == "add":
+        return "(" + " + ".join(_show_canon(x) for x in t[1:]) + ")"
+    if k == "mul":
+        return "(" + " * ".join(_show_canon(x) for x in t[1:]) + ")"
+    if k == "div":
+        return f"({_show_canon(t[1])} / {_show_canon(t[2])})"
+    if k == "call":
+        return f"{t[1]}(" + ", ".join(_show_canon(x) if isinstance(x, tuple) and x and isinstance(x[0], str) and x[0] in (
+            "name", "const", "expr", "neg", "add", "mul", "div", "call", "attr") else str(x) for x in t[2:]) + ")"
+    if k == "attr":
+        return f"{_show_canon(t[1])}.{t[2]}"
+    return str(t)
+
+
+def _mentions(t, name: str) -> bool:
+    if isinstance(t, tuple):
+        if t[:2] == ("name", name):
+            return True
+        return any(_mentions(x, name) for x in t)
+    return False
+
+
 def _alpha_from_halflife(f: Func) -> List[Tuple[str, SymPath, ast.stmt]]:
     out = []
     for p in enumerate_paths(f.node.body):
         # no-times path: a decided test `times is not None` must be False
         times_true = any(pol is True and isinstance(t, ast.AST) and norm(t) == "times is not None" for t, pol in p.conds)
-        env = SymEnv(f.named_params)
+        env: Dict[str, tuple] = {}
         for st in p.stmts:
-            if isinstance(st, ast.Assign) and len(st.targets) == 1 and isinstance(st.targets[0], ast.Name) \
-                    and st.targets[0].id == "alpha" and "halflife" in {n.id for n in ast.walk(st.value) if isinstance(n, ast.Name)}:
-                # is this assignment itself under a times-test?
-                under_times = any(isinstance(t, ast.AST) and "times is" in norm(t) and (
-                    (pol is True and "is not None" in norm(t)) or (pol is False and "is None" in norm(t)))
-                    and t.lineno < st.lineno for t, pol in p.conds)
-                if not times_true and not under_times:
-                    out.append((env.sym(st.value), p, st))
-            env.assign(st)
+            if isinstance(st, ast.Assign) and len(st.targets) == 1 and isinstance(st.targets[0], ast.Name):
+                val = _canon(st.value, env)
+                if st.targets[0].id == "alpha" and _mentions(val, "halflife"):
+                    # is this assignment itself under a times-test?
+                    under_times = any(isinstance(t, ast.AST) and "times is" in norm(t) and (
+                        (pol is True and "is not None" in norm(t)) or (pol is False and "is None" in norm(t)))
+                        and t.lineno < st.lineno for t, pol in p.conds)
+                    if not times_true and not under_times:
+                        out.append((_show_canon(val), p, st))
+                env[st.targets[0].id] = val
+            elif isinstance(st, (ast.Assign, ast.AugAssign)):
+                for t in (st.targets if isinstance(st, ast.Assign) else [st.target]):
+                    for n in ast.walk(t):
+                        if isinstance(n, ast.Name) and isinstance(n.ctx, ast.Store):
+                            env[n.id] = ("expr", f"?{n.id}@{st.lineno}")
     return out
 
 
@@ -765,7 +834,15 @@ def rule_E3(repo: Repo) -> RuleResult:
                     if "times" in norm(other):
                         clock = base_name(side)
     if clock is None:
-        raise AnalysisError("E3: elapsed-time expression (times[i] - clock[k]) not found in _ema_grouped_timed")
+        decays = [n for n in ast.walk(loop) if isinstance(n, ast.AugAssign) and isinstance(n.op, ast.Mult)
+                  and isinstance(n.target, ast.Subscript) and base_name(n.target) in roles.per_group_arrays]
+        if not decays:
+            raise AnalysisError("E3: neither an elapsed-time expression nor a decay of per-group state found in _ema_grouped_timed")
+        res.bad(f, decays[0], f"{norm(decays[0])}: elapsed time",
+                "the per-group state is decayed, but the elapsed time is not the difference between this row's time and a "
+                "per-group clock (times[i] - clock[k]): with interleaved groups the interval since the group's own previous "
+                "row is not what is applied")
+        return res
     n_paths = 0
     for p in enumerate_paths(loop.body):
         if p.exit != "fall":
